@@ -50,12 +50,12 @@ T9 = {
     "fileio/read_elf.cpp": ["read_elf"],
     "disasm/tms9900.cpp": ["list_output_tms9900", "disasm_range_tms9900"],
     "disasm/msp430.cpp": ["list_output_msp430_both"],
-    "disasm/6800.cpp": ["list_output_6800"],
-    "disasm/6800.h": ["list_output_6800"],
-    "disasm/6809.cpp": ["list_output_6809"],
-    "disasm/6809.h": ["list_output_6809"],
-    "disasm/68hc08.cpp": ["list_output_68hc08"],
-    "disasm/68hc08.h": ["list_output_68hc08"],
+    "disasm/6800.cpp": ["list_output_6800", "disasm_range_6800"],
+    "disasm/6800.h": ["list_output_6800", "disasm_range_6800"],
+    "disasm/6809.cpp": ["list_output_6809", "disasm_range_6809"],
+    "disasm/6809.h": ["list_output_6809", "disasm_range_6809"],
+    "disasm/68hc08.cpp": ["list_output_68hc08", "disasm_range_68hc08"],
+    "disasm/68hc08.h": ["list_output_68hc08", "disasm_range_68hc08"],
     "disasm/tms9900.h": ["list_output_tms9900", "disasm_range_tms9900"],
     "fileio/read_amiga.cpp": ["read_amiga", "read_hunk_header", "read_code", "read_int32"],
     "fileio/read_amiga.h": ["read_amiga"],
@@ -191,6 +191,9 @@ EXTRACT = [
     ("disasm/6800.cpp", r"^(?:extern \"C\" )?void list_output_6800\(", "list_output_6800.inc"),
     ("disasm/6809.cpp", r"^(?:extern \"C\" )?void list_output_6809\(", "list_output_6809.inc"),
     ("disasm/68hc08.cpp", r"^(?:extern \"C\" )?void list_output_68hc08\(", "list_output_68hc08.inc"),
+    ("disasm/6800.cpp", r"^(?:extern \"C\" )?void disasm_range_6800\(", "disasm_range_6800.inc"),
+    ("disasm/6809.cpp", r"^(?:extern \"C\" )?void disasm_range_6809\(", "disasm_range_6809.inc"),
+    ("disasm/68hc08.cpp", r"^(?:extern \"C\" )?void disasm_range_68hc08\(", "disasm_range_68hc08.inc"),
     ("core/AsmContext.cpp", r"^int AsmContext::link\(\)", "AsmContext_link.inc"),
     ("core/Linker.cpp", r"^uint8_t \*Linker::get_code_from_symbol\(", "Linker_get_code_from_symbol.inc"),
     ("core/UtilContext.cpp", r"^void UtilContext::print8\(const char \*token\)", "UtilContext_print8.inc"),
@@ -246,10 +249,13 @@ def prep(repo, dst, t9_extra=None):
     os.makedirs(gen, exist_ok=True)
     for rel, sig, out in EXTRACT:
         with open(os.path.join(src_root, rel), errors="surrogateescape") as fh:
-            body = extract_function(fh.read(), sig)
+            whole = fh.read()
+        body = extract_function(whole, sig)
         if body is not None:
+            # the file-level READ_RAM* accessor macros the function text uses are copied along (verbatim, guarded)
+            macros = "".join("#ifndef %s\n%s\n#endif\n" % (m.group(1), m.group(0)) for m in re.finditer(r"^#define (READ_RAM\w*)\(a\).*$", whole, re.M))
             with open(os.path.join(gen, out), "w", errors="surrogateescape") as fh:
-                fh.write("/* extracted verbatim from %s by tools/prep_tree.py */\n" % rel + body)
+                fh.write("/* extracted verbatim from %s by tools/prep_tree.py */\n" % rel + macros + body)
             report.setdefault(rel, {})["X1"] = 1
     # encoders that use the pass-1 flag-byte protocol (C02/C13 lemma): source scan on every run
     protos = []
